@@ -10,7 +10,7 @@ MODE="${1:-quick}"
 cd "$VERIF_DIR/harness" || exit 2
 MODFILE=$(verif_modfile)
 case "$ID" in
-  C09|C12|C14) INSTR=1 ;;
+  C09|C12|C14|C19) INSTR=1 ;;
   *) INSTR=0 ;;
 esac
 # always rebuild from /repo's current working tree (the Go build cache makes this ~1-2 s when unchanged)
